@@ -51,6 +51,7 @@ func (m *Memoizer) Do(key string, fn func() (any, error)) (any, error) {
 	// Fast path: check cache
 	if v, ok := cache.Load(key); ok {
 		e := v.(*entry)
+		verifYield("do.fast.loaded")
 		if m.addOwner(e) {
 			return e.value, nil
 		}
@@ -59,9 +60,11 @@ func (m *Memoizer) Do(key string, fn func() (any, error)) (any, error) {
 
 	// Slow path: singleflight ensures only one compilation per key
 	val, err, _ := group.Do(key, func() (any, error) {
+		verifYield("do.flight.entered")
 		// Double-check after acquiring singleflight
 		if v, ok := cache.Load(key); ok {
 			e := v.(*entry)
+			verifYield("do.flight.loaded")
 			if m.addOwner(e) {
 				return e.value, nil
 			}
@@ -73,6 +76,7 @@ func (m *Memoizer) Do(key string, fn func() (any, error)) (any, error) {
 				value:  data,
 				owners: map[uint64]struct{}{m.ownerID: {}},
 			}
+			verifYield("do.flight.compiled")
 			cache.Store(key, e)
 		}
 		return data, innerErr
@@ -81,8 +85,10 @@ func (m *Memoizer) Do(key string, fn func() (any, error)) (any, error) {
 	// Ensure this caller is registered as an owner even if its execution
 	// was deduplicated by singleflight.
 	if err == nil {
+		verifYield("do.post")
 		if v, ok := cache.Load(key); ok {
 			e := v.(*entry)
+			verifYield("do.post.loaded")
 			m.addOwner(e)
 		}
 	}
@@ -94,10 +100,12 @@ func (m *Memoizer) Do(key string, fn func() (any, error)) (any, error) {
 func Release(ownerID uint64) {
 	cache.Range(func(key, value any) bool {
 		e := value.(*entry)
+		verifYield("release.visit")
 		e.mu.Lock()
 		delete(e.owners, ownerID)
 		if len(e.owners) == 0 {
 			e.deleted = true
+			verifYield("release.marked")
 			cache.Delete(key)
 		}
 		e.mu.Unlock()
